@@ -1,6 +1,7 @@
 package common_listener
 
 import (
+	"github.com/antlr/antlr4/runtime/Go/antlr/v4"
 	"github.com/modernizing/coca/languages/java"
 	"github.com/modernizing/coca/pkg/domain/core_domain"
 	"reflect"
@@ -40,5 +41,19 @@ func BuildAnnotationForMethod(context *parser.ModifierContext, method *core_doma
 			annotation := BuildAnnotation(annotationCtx)
 			method.Annotations = append(method.Annotations, annotation)
 		}
+	}
+}
+
+// BuildAnnotationsForMember collects the annotations among all the modifiers of a class or interface body declaration
+func BuildAnnotationsForMember(bodyDeclaration antlr.Tree, method *core_domain.CodeFunction) {
+	var modifiers []parser.IModifierContext
+	switch x := bodyDeclaration.(type) {
+	case *parser.ClassBodyDeclarationContext:
+		modifiers = x.AllModifier()
+	case *parser.InterfaceBodyDeclarationContext:
+		modifiers = x.AllModifier()
+	}
+	for _, modifier := range modifiers {
+		BuildAnnotationForMethod(modifier.(*parser.ModifierContext), method)
 	}
 }
